@@ -518,7 +518,7 @@ Proof.
   destruct (no st <? lib n) eqn:El.
   { inversion R; subst. left. repeat split; auto. intros _. exists st, news, olds. split; auto. apply N.ltb_lt. exact El. }
   apply N.ltb_ge in El.
-  destruct (rollforward apply (set_sdb n (root st)) (rev news)) as [n2 ok] eqn:RF.
+  destruct (rollforward apply (set_state n (root st)) (rev news)) as [n2 ok] eqn:RF.
   destruct (rollforward_frame apply _ _ _ _ RF) as (Fb & Fo & Fbad & Flib & Ff & Fm & Fr & Fok).
   simpl in Fb, Fo, Fbad, Flib, Ff, Fm, Fr.
   destruct ok.
